@@ -167,6 +167,7 @@ fn fault_prefix(r: &mut Rng, link: u64, out: &mut L) {
                     7 => { t = vec![0, 1, r.below(256)]; }
                     _ => {}
                 }
+                if link == 2 && r.chance(1, 10) && t.len() > 1 { let i = 1 + r.below(t.len() as u64 - 1) as usize; t.insert(i, 258); }   // an interrupted read (EINTR) inside the frame
                 out.extend(t);
                 if r.chance(1, 8) { for _ in 0..r.range(1, 4) { out.push(r.range(1, 255)); } }                         // non-zero line noise
             }
@@ -359,15 +360,19 @@ pub fn exec_snd(case: &[u64]) -> L {
     let mut o = vec![];
     // The sender object is not fresh: it has already sent a related packet to an always-ready device (a sender keeps nothing from one
     // packet to the next, so this must not matter): none / the same packet / the same with the opposite error flag / same address, other payload.
-    let prelude: Option<Packet> = match (p.data.len() as u64 + p.device_address as u64) % 4 {
-        0 => None, 1 => Some(p.clone()), 2 => { let mut q = p.clone(); q.is_error = !q.is_error; Some(q) }
-        _ => { let mut q = p.clone(); q.data.reverse(); q.data.push(0x5a); Some(q) } };
+    // Variants 4 and 5: that earlier send FAILED part-way (displaced CAN frame / serial write error and flush error / discarded USART write errors).
+    let variant = (p.data.len() as u64 + p.device_address as u64) % 6;
+    let prelude: Option<Packet> = match variant {
+        0 => None, 1 | 4 => Some(p.clone()), 2 => { let mut q = p.clone(); q.is_error = !q.is_error; Some(q) }
+        _ => { let mut q = p.clone(); q.data.reverse(); q.data.push(0x5a); q.data.extend_from_slice(&[7; 9]); Some(q) } };
+    let failing = variant >= 4;
     // ... or (marked case: address 0xbeef, 3 payload bytes) a long life: 17 packets of 4096 frames each, 69632 frames (a u16 counter wraps)
     let heavy = p.device_address == 0xbeef && p.data.len() == 3;
     let preludes: Vec<Packet> = if heavy { (0..17u8).map(|i| Packet { is_error: i % 2 == 0, device_address: 0x100 + i as u16, data: vec![i; 28672] }).collect() } else { prelude.into_iter().collect() };
     match link {
         0 => {
             let st = Rc::new(RefCell::new(CanSt { accept_all: true, ..Default::default() }));
+            if failing { st.borrow_mut().ans = vec![1, 0, 2].into_iter().collect(); }       // would-block, sent, then a displaced-frame report
             let mut tx = Can::new(ross_protocol::interface::can::verif_sim::Can::new(CanDev(st.clone())));
             for q in preludes.iter() { let _ = catch_unwind(AssertUnwindSafe(|| tx.try_send_packet(q))); st.borrow_mut().tx.clear(); }
             { let mut s = st.borrow_mut(); s.tx.clear(); s.spins = 0; s.accept_all = false; s.ans = ans.iter().map(|x| *x as u8).collect(); }
@@ -378,6 +383,7 @@ pub fn exec_snd(case: &[u64]) -> L {
         }
         1 => {
             let st = Rc::new(RefCell::new(UsartSt { accept_all: true, ..Default::default() }));
+            if failing { st.borrow_mut().ans = vec![0, 1, 2, 0, 2].into_iter().collect(); }       // two bytes are lost to hard write errors
             let mut tx = Usart::new(UsartDev(st.clone()));
             for q in preludes.iter() { let _ = catch_unwind(AssertUnwindSafe(|| tx.try_send_packet(q))); st.borrow_mut().tx.clear(); }
             { let mut s = st.borrow_mut(); s.tx.clear(); s.spins = 0; s.accept_all = false; s.ans = ans.iter().map(|x| *x as u8).collect(); }
@@ -387,6 +393,7 @@ pub fn exec_snd(case: &[u64]) -> L {
         }
         _ => {
             let st = Arc::new(Mutex::new(SerSt { flush_ok: true, ..Default::default() }));
+            if failing { let mut s = st.lock().unwrap(); if p.data.len() % 2 == 0 { s.ans = vec![1, 1, 3, 0x1001].into_iter().collect(); } else { s.flush_ok = false; s.flush_kind = 0; } }   // a write error after a few bytes, or a failing flush
             let mut tx = Serial::new(Box::new(SerDev(st.clone())));
             for q in preludes.iter() { let _ = catch_unwind(AssertUnwindSafe(|| tx.try_send_packet(q))); st.lock().unwrap().tx.clear(); }
             { let mut s = st.lock().unwrap(); s.tx.clear(); s.spins = 0; s.flush_ok = false; s.flush_kind = flush_kind; s.ans = ans.iter().map(|x| *x as u32).collect(); }
